@@ -12,7 +12,7 @@ use chess::game::game::{Game, GameError};
 use chess::move_generator::MoveGenerator;
 
 use crate::eng::*;
-use crate::gen::{choose_move, choose_start, Policy, StartKind, TERMINAL_FENS};
+use crate::gen::{choose_move, choose_move_seen, choose_start, Policy, Seen, StartKind, TERMINAL_FENS};
 use crate::model::{Mv, Pos, Side};
 #[allow(unused_imports)]
 use crate::model::P;
@@ -160,7 +160,8 @@ pub fn gen_plan(property: &str, seed: u64, index: u64, tier: Tier) -> Plan {
             knobs.insert("via_game".to_string(), via_game as i64);
             let game_depth = rng.range(0, 2) as i64;
             knobs.insert("game_depth".to_string(), game_depth);
-            let policy = if scenario == "game-walk" { Policy::Spicy } else { Policy::Hunt };
+            let policy = if scenario == "game-walk" && rng.chance(1, 3) { Policy::Lookalike } else if scenario == "game-walk" { Policy::Spicy } else { Policy::Hunt };
+            let mut seen = Seen::default();
             let len = rng.range(6, if thorough { 40 } else { 24 });
             let mut pos = start.clone();
             let mut stack = vec![pos.clone()];
@@ -180,7 +181,7 @@ pub fn gen_plan(property: &str, seed: u64, index: u64, tier: Tier) -> Plan {
                     }
                     continue;
                 }
-                let k = choose_move(&mut rng, &pos, &legal, policy, None);
+                let k = choose_move_seen(&mut rng, &pos, &legal, policy, None, &mut seen);
                 ops.push(Op::Make(k as u32));
                 pos = pos.make(&legal[k]);
                 stack.push(pos.clone());
@@ -219,7 +220,9 @@ pub fn gen_plan(property: &str, seed: u64, index: u64, tier: Tier) -> Plan {
                 scenario = "reused-context-game";
             }
             knobs.insert("depth".into(), depth as i64);
-            let searches = if knobs["reuse"] == 1 { rng.range(3, if thorough { 10 } else { 6 }) } else { rng.range(1, 2) };
+            let lookalike = knobs["reuse"] == 1 && rng.chance(1, 3);
+            let mut seen = Seen::default();
+            let searches = if lookalike { rng.range(6, if thorough { 14 } else { 9 }) } else if knobs["reuse"] == 1 { rng.range(3, if thorough { 10 } else { 6 }) } else { rng.range(1, 2) };
             let one_side = knobs.get("one_side").copied().unwrap_or(0) == 1;
             let engine_side = start.stm;
             let mut pos = start.clone();
@@ -254,8 +257,8 @@ pub fn gen_plan(property: &str, seed: u64, index: u64, tier: Tier) -> Plan {
                 if pos.half + depth as u32 + 2 >= 100 {
                     break;
                 }
-                let pol = if rng.chance(1, 2) { Policy::Spicy } else { Policy::Uniform };
-                let k = choose_move(&mut rng, &pos, &legal, pol, None);
+                let pol = if lookalike { Policy::Lookalike } else if rng.chance(1, 2) { Policy::Spicy } else { Policy::Uniform };
+                let k = choose_move_seen(&mut rng, &pos, &legal, pol, None, &mut seen);
                 ops.push(Op::Make(k as u32));
                 pos = pos.make(&legal[k]);
                 stack.push(pos.clone());
@@ -614,7 +617,11 @@ pub fn exec(plan: &Plan) -> Outcome {
                     }
                     match mm {
                         None => {
-                            out.desync = Some("returned-move-not-legal".into());
+                            out.violation = Some(Violation {
+                                class: format!("C08/returned-move-is-not-a-legal-move/{}", tag),
+                                detail: format!("{}: the search returned {:?}, which is not a legal move of the position", cur.to_fen(), k),
+                                at_op: i,
+                            });
                             break;
                         }
                         Some(m) => {
